@@ -2,7 +2,9 @@ import ElvisVerif.Model.Router
 import Driver.Common
 /-! Line-protocol handlers for C16 (sub-command `c16`).
 
-`topo` / `host` / `router` lines build the topology; `send` hands one datagram to a host's stack
+`topo` / `host` / `router` lines build the topology (`host … late=1`: a host that claims its address
+only at a later `claim <node> ip= mask= gw= port=` op); `mute <node> out|in` / `mute - -` sets the
+fault schedule (which ARP frames the networks lose from here on); `send` hands one datagram to a host's stack
 and runs the concrete model (`cstep` under the canonical schedule `nextChoice`) to quiescence;
 `bsend`* + `flush` hand several datagrams over before running.  The answer lists, canonically
 sorted, every frame handed to a network (`W` IPv4, `A` ARP — omitted for bursts), every tap
@@ -14,6 +16,8 @@ structure St where
   topo : Topo := { nodes := [], mtus := [] }
   cs : CState := CState.init { nodes := [], mtus := [] }
   dead : Bool := false
+  /-- the fault schedule in force: which ARP frames the networks lose (`mute` op) -/
+  loss : Option ArpLoss := none
 
 def parseAddr (s : String) : Option Nat :=
   match s.splitOn "." with
@@ -78,12 +82,25 @@ def showEv : Ev → Option String
   | .app n p port data => some s!"P:{n}:{port}:t{p.tok}:{Driver.toHex data}"
   | .hop _ _ => none
 
-/-- the canonical schedule, recording the tap deliveries of IPv4 frames -/
-def runTrace (topo : Topo) : Nat → CState → List String → Except String (CState × List String)
+/-- is the a-th ARP frame in flight lost under the fault schedule in force? -/
+def lostArp (topo : Topo) (loss : Option ArpLoss) (s : CState) (a : Nat) : Bool :=
+  match loss, s.arpFlight[a]? with
+  | some l, some fr => l.hits topo fr
+  | _, _ => false
+
+/-- the canonical schedule, recording the tap deliveries of IPv4 frames; an ARP frame the fault
+    schedule loses is taken off the network (`dropArp`) instead of being delivered -/
+def runTrace (topo : Topo) (loss : Option ArpLoss) : Nat → CState → List String → Except String (CState × List String)
   | 0, _, _ => .error "model-not-quiescent-within-step-budget"
   | fuel + 1, s, acc =>
     match nextChoice s with
     | none => .ok (s, acc)
+    | some (.arp a) =>
+      if lostArp topo loss s a then runTrace topo loss fuel (dropArp s a) acc
+      else
+        match cstep topo s (.arp a) with
+        | .error e => .error e
+        | .ok s' => runTrace topo loss fuel s' acc
     | some c =>
       let acc := match c with
         | .deliver i =>
@@ -96,12 +113,12 @@ def runTrace (topo : Topo) : Nat → CState → List String → Except String (C
         | _ => acc
       match cstep topo s c with
       | .error e => .error e
-      | .ok s' => runTrace topo fuel s' acc
+      | .ok s' => runTrace topo loss fuel s' acc
 
 def sortStrings (l : List String) : List String := (l.toArray.qsort (fun a b => a < b)).toList
 
 def settle (st : St) (withArp : Bool) (before : CState) : St × String :=
-  match runTrace st.topo 40000 st.cs [] with
+  match runTrace st.topo st.loss 40000 st.cs [] with
   | .error e => ({ st with dead := true }, e)
   | .ok (s, taps) =>
     let evs := (s.log.drop before.log.length).filterMap showEv
@@ -121,9 +138,13 @@ def step (st : St) (ws : List String) : St × String :=
     let m := kvs rest
     match getNat m "net", getNat m "mac", getAddr m "ip", getNat m "mask", getAddr m "gw", getNat m "port" with
     | some net, some mac, some ip, some mask, some gw, some port =>
-      let nd : Node := { slots := [(net, mac)], binds := [{ addr := ip, pn := 17, up := .udp }],
-                         udpPorts := [(ip, port)], subnet := some (ip, mask, gw), localIps := [ip],
-                         table := [], arpIps := [ip] }
+      -- `late=1`: the host claims its address (Arp::set_subnet + Udp::listen -> Ipv4::listen ->
+      -- Arp::listen) only at its `claim` op; until then it answers no ARP request and binds nothing
+      let late := getNat m "late" == some 1
+      let nd : Node := { slots := [(net, mac)], binds := if late then [] else [{ addr := ip, pn := 17, up := .udp }],
+                         udpPorts := if late then [] else [(ip, port)],
+                         subnet := if late then none else some (ip, mask, gw), localIps := [ip],
+                         table := [], arpIps := if late then [] else [ip] }
       let topo := { st.topo with nodes := st.topo.nodes ++ [nd] }
       ({ st with topo := topo, cs := CState.init topo }, "host")
     | _, _, _, _, _, _ => (st, "bad-op")
@@ -139,6 +160,24 @@ def step (st : St) (ws : List String) : St × String :=
       let topo := { st.topo with nodes := st.topo.nodes ++ [nd] }
       ({ st with topo := topo, cs := CState.init topo }, "router")
     | _, _ => (st, "bad-op")
+  | ["mute", n, dir] =>
+    -- fault schedule from here on: `mute - -` none; `mute <node> out|in` see `ArpLoss`
+    match n.toNat?, dir with
+    | some n, "out" => ({ st with loss := some { node := n, inbound := false } }, "mute")
+    | some n, "in" => ({ st with loss := some { node := n, inbound := true } }, "mute")
+    | none, _ => if n == "-" then ({ st with loss := none }, "mute") else (st, "bad-op")
+    | _, _ => (st, "bad-op")
+  | "claim" :: n :: rest =>
+    let m := kvs rest
+    match n.toNat?, getAddr m "ip", getNat m "mask", getAddr m "gw", getNat m "port" with
+    | some n, some ip, some mask, some gw, some port =>
+      match st.topo.nodes[n]? with
+      | some nd =>
+        let nd' : Node := { nd with binds := [{ addr := ip, pn := 17, up := .udp }], udpPorts := [(ip, port)],
+                                    subnet := some (ip, mask, gw), arpIps := [ip] }
+        ({ st with topo := { st.topo with nodes := st.topo.nodes.set n nd' } }, "claim")
+      | none => (st, "bad-op")
+    | _, _, _, _, _ => (st, "bad-op")
   | "send" :: rest =>
     if st.dead then (st, "dead") else
     match parseSend (kvs rest) with
